@@ -225,6 +225,7 @@ def state_key(sched, repo, extra=None):
             digest(mon, memo, 1),
             p.nops if p.name == "main" else None,
             tuple(sorted(k for k, v in sched.locks.items() if v == p.pid)),
+            tuple(sorted(k for k, v in getattr(sched, "flocks", {}).items() if v == p.pid)),
             tuple(sorted(k for k, v in sched.writing.items() if v == p.pid)),
         )
         comps.append((repr(comp), p.pid))
